@@ -64,7 +64,13 @@ def cfg_to_kw(cfg: dict) -> dict:
     if cfg.get("dry"):
         kw["dry_run"] = True
     if cfg.get("maxfail") is not None:
-        kw["max_failures"] = cfg["maxfail"]
+        # where the failure limit comes from (optional cfg["maxfail_src"]): keyword argument max_failures (default), keyword argument
+        # stop_after_first_failure (limit 1), the project's config file (written by project.write_config_file), or both
+        src = cfg.get("maxfail_src", "kwarg")
+        if src in ("kwarg", "both"):
+            kw["max_failures"] = cfg["maxfail"]
+        elif src == "kwarg_stop":
+            kw["stop_after_first_failure"] = True
     if cfg.get("k"):
         kw["expression"] = cfg["k"]
     if cfg.get("m"):
